@@ -16,7 +16,7 @@ import vlib
 
 META = {
     "category": "proof",
-    "text": "Coq theorems (Scrunch/Props_C19.v, closed under the global context; the document theorems carry the suffix _partial, the missing parts are listed in the file's header) over executable models of scrunch/src/{lib,sigma,psi/mod,psi/wavelet_tree,sa,isa,sampled,binary_search}.rs: for every text, alphabet, valid record division and needle the modelled CompressedDocument (Sigma; backward search over the WaveletTreePsi table incl. its streaming constructor, lookup, lower_bound, upper_bound and constrain; locate through the sampled suffix array; extract through the sampled inverse suffix array; record lookup by rank/select; lib.rs inverse_and_psi_u32) returns exactly the occurrences, counts, record numbers, record contents, length and record count of a plain scan, as do PsiDocument over the reference arrays and ReferenceDocument; rank/select laws and the trait-default binary searches; the prefix-code wavelet tree (prefix.rs access/rank/select over per-node bit vectors, closed for the fixed-width encoder); the two bit-vector encodings CompressedDocument uses are transcribed and proved equal to the plain bit list for every bit pattern: sparse.rs (B-tree of delta slices: from_indices / construct, access, rank, select, inherited rank0 / select0) and rrr.rs (63-bit words, classes, offsets through the binomial table K with widths L, decode inverts encode, p / r superblock samples, s0 / s1 select samples, u63::select_word, access, access_rank, rank, select, select0; no push_word assertion fails below 2^62 bits), put under the document's record boundaries and under every node of the prefix wavelet tree; SA-IS, the Huffman code book and serialisation are specified by interface only and compared with the code component-wise (every index, every bit vector, before and after re-parsing) by differential runs of Rust vs extracted model (list interface AND the structural sparse / rrr models, incl. the L / K tables entry by entry) vs a plain scan.",
+    "text": "Coq theorems (Scrunch/Props_C19.v, closed under the global context; the document theorems carry the suffix _partial, the missing parts are listed in the file's header) over executable models of scrunch/src/{lib,sigma,psi/mod,psi/wavelet_tree,sa,isa,sampled,binary_search}.rs: for every text, alphabet, valid record division and needle the modelled CompressedDocument (Sigma; backward search over the WaveletTreePsi table incl. its streaming constructor, lookup, lower_bound, upper_bound and constrain; locate through the sampled suffix array; extract through the sampled inverse suffix array; record lookup by rank/select; lib.rs inverse_and_psi_u32) returns exactly the occurrences, counts, record numbers, record contents, length and record count of a plain scan, as do PsiDocument over the reference arrays and ReferenceDocument; rank/select laws and the trait-default binary searches; the prefix-code wavelet tree (prefix.rs access/rank/select over per-node bit vectors, closed for the fixed-width encoder); the two bit-vector encodings CompressedDocument uses are transcribed and proved equal to the plain bit list for every bit pattern: sparse.rs (B-tree of delta slices: from_indices / construct, access, rank, select, inherited rank0 / select0) and rrr.rs (63-bit words, classes, offsets through the binomial table K with widths L, decode inverts encode, p / r superblock samples, s0 / s1 select samples, u63::select_word, access, access_rank, rank, select, select0; no push_word assertion fails below 2^62 bits), put under the document's record boundaries and under every node of the prefix wavelet tree; SA-IS, the Huffman code book and serialisation are specified by interface only and compared with the code component-wise (every index, every bit vector, before and after re-parsing) by differential runs of Rust vs extracted model (list interface AND the structural sparse / rrr models, incl. the L / K tables entry by entry) vs a plain scan. A document with more than 65535 distinct symbols (the u32 branch of construct) is built and compared in every run.",
     "note": "Partial by construction: suffix sorting (SA-IS), the Huffman code book and the protobuf / byte framing (incl. the byte-at-a-time loops of BitArray load / push_word and the varint headers of the sparse nodes) are not proved (interface + correspondence). Inside the document model the sigma columns, the sampled arrays' presence vectors, y_key and WaveletTreePsi's wavelet trees stay plain lists read through the list functions the sparse / rrr theorems prove the encodings compute (C19_compressed_document_answers_as_scan_structural_partial re-instantiates only the record boundaries). Machine-word effects (u64 wrap, width <= 32 in FixedWidthIterator, lengths >= 2^62) are outside the models. Trusted: Coq kernel; tools/constants.py; ExtrOcamlBasic extraction + ocaml/scrunch driver; harness c19; std binary_search/partition_point/sort/HashMap as specified. Texts need a valid record division (non-empty text, last record non-empty): both constructors refuse the rest.",
 }
 
